@@ -52,6 +52,7 @@ type Header struct {
 	Forged bool   `json:"f,omitempty"`
 	Bad    bool   `json:"b,omitempty"`
 	PV     bool   `json:"pv,omitempty"` // Validate panics
+	NC     bool   `json:"nc,omitempty"` // Validate tolerates an empty chain id (as headertest.DummyHeader does)
 
 	mu   sync.Mutex
 	hash header.Hash
@@ -124,7 +125,7 @@ func (d *Header) Validate() error {
 	if d.PV {
 		panic("vhdr: scripted panic in Validate")
 	}
-	if d.Bad || d.H == 0 || d.Chain == "" {
+	if d.Bad || d.H == 0 || (d.Chain == "" && !d.NC) {
 		return ErrInvalid
 	}
 	return nil
@@ -140,10 +141,11 @@ type wire struct {
 	Forged bool   `json:"f,omitempty"`
 	Bad    bool   `json:"b,omitempty"`
 	PV     bool   `json:"pv,omitempty"`
+	NC     bool   `json:"nc,omitempty"`
 }
 
 func (d *Header) MarshalBinary() ([]byte, error) {
-	return json.Marshal(wire{d.Chain, d.H, d.T, d.Prev, d.Salt, d.VK, d.Forged, d.Bad, d.PV})
+	return json.Marshal(wire{d.Chain, d.H, d.T, d.Prev, d.Salt, d.VK, d.Forged, d.Bad, d.PV, d.NC})
 }
 
 // PanicBytes makes UnmarshalBinary panic (a hostile payload hitting a decoder bug).
@@ -159,7 +161,7 @@ func (d *Header) UnmarshalBinary(b []byte) error {
 	if err := dec.Decode(&w); err != nil {
 		return err
 	}
-	d.Chain, d.H, d.T, d.Prev, d.Salt, d.VK, d.Forged, d.Bad, d.PV = w.Chain, w.H, w.T, w.Prev, w.Salt, w.VK, w.Forged, w.Bad, w.PV
+	d.Chain, d.H, d.T, d.Prev, d.Salt, d.VK, d.Forged, d.Bad, d.PV, d.NC = w.Chain, w.H, w.T, w.Prev, w.Salt, w.VK, w.Forged, w.Bad, w.PV, w.NC
 	d.hash = nil
 	return nil
 }
